@@ -180,7 +180,8 @@ type simReg struct {
 	deliveredAll map[string][][]byte // the same, every body of the current attempt
 
 	// per attempt, per layer digest
-	stats map[string]*layerStat
+	stats         map[string]*layerStat
+	everRequested map[string]bool
 
 	// push monitor
 	accepted    map[string][]byte // name -> manifest accepted by a PUT
@@ -209,6 +210,10 @@ func (r *simReg) logf(f string, a ...any) {
 }
 
 func (r *simReg) stat(d string) *layerStat {
+	if r.everRequested == nil {
+		r.everRequested = map[string]bool{}
+	}
+	r.everRequested[d] = true
 	s := r.stats[d]
 	if s == nil {
 		s = &layerStat{}
@@ -410,7 +415,22 @@ func (r *simReg) manifest(req *http.Request, repo, tag string) (*http.Response, 
 		}
 		// a manifest GET is the start of one Registry.Pull invocation (the handler retries invisibly):
 		// what the registry sees per layer is counted per invocation
-		r.stats = map[string]*layerStat{}
+		var mj struct {
+			Config *struct {
+				Digest string `json:"digest"`
+			} `json:"config"`
+			Layers []struct {
+				Digest string `json:"digest"`
+			} `json:"layers"`
+		}
+		if json.Unmarshal(m, &mj) == nil {
+			for _, l := range mj.Layers {
+				delete(r.stats, l.Digest)
+			}
+			if mj.Config != nil {
+				delete(r.stats, mj.Config.Digest)
+			}
+		}
 		body := &regBody{ctx: req.Context(), data: m, end: len(m), plan: r.plan, kinds: []string{nfShort, nfReset, nfFlip}, reg: r}
 		body.onEOF = func(got []byte) {
 			r.delivered[name] = got
